@@ -33,7 +33,7 @@ class Fail(Exception):
 class Obj:
     """a nutils basis on its topology plus what the harness knows about where it came from"""
 
-    def __init__(self, topo, geom, basis, period=None, scale=1, btype=None, kwargs=None, exact=True, root=None):
+    def __init__(self, topo, geom, basis, period=None, scale=1, btype=None, kwargs=None, exact=True, root=None, emap=None):
         self.topo = topo
         self.geom = geom
         self.basis = basis
@@ -42,7 +42,8 @@ class Obj:
         self.btype = btype        # arguments with which topo.basis(btype, **kwargs) gave this basis (None: derived)
         self.kwargs = kwargs
         self.exact = exact        # the model fixes the numbering of the dofs
-        self.root = root or topo  # the topology whose f_index numbers the elements of geom-based lookups
+        self.root = root or topo  # the topology that supplies the interfaces
+        self.emap = emap          # element of topo -> element of root (None: the same)
 
 
 def hkey(hist):
@@ -140,17 +141,18 @@ def follow_structured(hist, variant=0):
             else:
                 basis = parent[numpy.isin(numpy.arange(len(parent)), K)]
                 alts.append(('MaskedBasis', lambda parent=parent, K=K: function.MaskedBasis(parent, K)))
-            cur = Obj(cur.topo, cur.geom, basis, period=cur.period, exact=cur.exact, root=cur.root)
+            cur = Obj(cur.topo, cur.geom, basis, period=cur.period, exact=cur.exact, root=cur.root, emap=cur.emap)
         elif op == 'prune':
             E = list(h['a'])
             sub = subset(cur.topo, E)
             basis = function.PrunedBasis(cur.basis, numpy.array(E, dtype=int), sub.f_index, sub.f_coords)
             if cur.btype is not None:
                 alts.append(('SubsetTopology.basis', lambda sub=sub, bt=cur.btype, kw=cur.kwargs: sub.basis(bt, **kw)))
-            cur = Obj(sub, cur.geom, basis, period=cur.period, exact=cur.exact, root=cur.root)
+            emap = [E[i] if cur.emap is None else cur.emap[E[i]] for i in range(len(E))]
+            cur = Obj(sub, cur.geom, basis, period=cur.period, exact=cur.exact, root=cur.root, emap=emap)
         elif op == 'part':
             P = list(h['a'])
-            cur = Obj(cur.topo, cur.geom, cur.basis.discontinuous_at_partition_interfaces(P), period=cur.period, exact=cur.exact, root=cur.root)
+            cur = Obj(cur.topo, cur.geom, cur.basis.discontinuous_at_partition_interfaces(P), period=cur.period, exact=cur.exact, root=cur.root, emap=cur.emap)
         else:
             raise ValueError('unknown operation ' + op)
         yield k, cur, alts
@@ -158,15 +160,17 @@ def follow_structured(hist, variant=0):
 
 def product_basis(dims):
     """the same tensor product spline on a product of one-dimensional topologies (Topology.basis ravels the
-    outer product of the factor bases): returns (topo, basis array)"""
-    from nutils import mesh
+    outer product of the factor bases): returns (topo, basis array, geometry)"""
+    from nutils import mesh, function
     topo = None
+    geoms = []
     for i, d in enumerate(dims):
         t, g = mesh.line(numpy.arange(d['n'] + 1, dtype=float), periodic=d['per'], space='X{}'.format(i))
         topo = t if topo is None else topo * t
+        geoms.append(g)
     kwargs = spline_args(list(dims))
     periodic = tuple(i for i, d in enumerate(dims) if d['per'])
-    return topo, topo.basis('spline', periodic=periodic, **kwargs)
+    return topo, topo.basis('spline', periodic=periodic, **kwargs), numpy.stack(geoms)
 
 
 # ----------------------------------------------------------------------------------------------------------
@@ -186,6 +190,23 @@ def code_tables(obj, fam):
     if nel != ne:
         raise Fail('{}:nelems'.format(fam), 'basis.nelems = {} on a topology of {} elements'.format(nel, ne))
     return dict(ne=ne, nd=nd, ed=ed, su=su)
+
+
+def check_vector_args(obj, tab):
+    """the documented contract of get_dofs / get_support with an array argument: the union, strictly increasing"""
+    basis = obj.basis
+    for name, f, rows in (('get_dofs', basis.get_dofs, tab['ed']), ('get_support', basis.get_support, tab['su'])):
+        n = len(rows)
+        args = [[i] for i in range(n)] + ([list(range(n))] if n > 1 else []) + ([[0, n - 1]] if n > 2 else [])
+        for arg in args:
+            try:
+                got = [int(x) for x in f(numpy.array(arg, dtype=int))]
+            except Exception as e:
+                raise Fail('{}:array-arg:raises-{}'.format(name, type(e).__name__), '{}(array({})) raised {!r}'.format(name, arg, e))
+            want = sorted(set(itertools.chain.from_iterable(rows[i] for i in arg)))
+            if got != want:
+                kind = 'not-unique' if sorted(set(got)) == want else 'wrong'
+                raise Fail('{}:array-arg:{}'.format(name, kind), '{}(array({})) = {}, the union of the single-index results is {}'.format(name, arg, got, want))
 
 
 def compare_tables(pred, tab, exact, fam):
@@ -269,25 +290,46 @@ def check_values(pred, tab, obj, fam, pmax):
     return smp.npoints
 
 
-def interface_keys(obj):
-    """[(key, element a, element b)] of the real interfaces of the topology: doubled coordinates of the midpoint"""
+_ifc_cache = {}
+
+
+def root_interfaces(obj):
+    """interfaces of the root topology with [(key, root element a, root element b)]: doubled midpoint coordinates"""
     from nutils import function
-    topo = obj.topo
-    ifc = topo.interfaces
-    if len(ifc) == 0:
-        return ifc, []
-    smp = ifc.sample('gauss', 1)
-    x, a, b = smp.eval([obj.geom, topo.f_index, function.opposite(topo.f_index)])
+    root = obj.root
+    hit = _ifc_cache.get(id(root))
+    if hit is not None and hit[0] is root:
+        return hit[1], hit[2]
+    ifc = root.interfaces
     out = []
-    for i in range(len(ifc)):
-        sel = smp.getindex(i)
-        mid = numpy.asarray(x)[sel].mean(axis=0) * 2 * obj.scale
-        key = numpy.round(mid).astype(int)
-        if abs(mid - key).max() > 1e-6:
-            raise RuntimeError('interface midpoint {} is not on the model grid'.format(mid.tolist()))
-        key = [int(c % p) if p else int(c) for c, p in zip(key, obj.period)]
-        out.append((tuple(key), int(numpy.asarray(a)[sel][0]), int(numpy.asarray(b)[sel][0])))
+    if len(ifc):
+        smp = ifc.sample('gauss', 1)
+        x, a, b = smp.eval([obj.geom, root.f_index, function.opposite(root.f_index)])
+        for i in range(len(ifc)):
+            sel = smp.getindex(i)
+            mid = numpy.asarray(x)[sel].mean(axis=0) * 2 * obj.scale
+            key = numpy.round(mid).astype(int)
+            if abs(mid - key).max() > 1e-6:
+                raise RuntimeError('interface midpoint {} is not on the model grid'.format(mid.tolist()))
+            key = [int(c % p) if p else int(c) for c, p in zip(key, obj.period)]
+            out.append((tuple(key), int(numpy.asarray(a)[sel][0]), int(numpy.asarray(b)[sel][0])))
+    if len(_ifc_cache) > 32:
+        _ifc_cache.clear()
+    _ifc_cache[id(root)] = root, ifc, out
     return ifc, out
+
+
+def interface_keys(obj):
+    """(interface topology, [(key, element a, element b)]) for the current topology: the interfaces of the root
+    topology whose two sides both belong to it (elements renumbered)"""
+    ifc, real = root_interfaces(obj)
+    if obj.emap is None:
+        return ifc, real
+    inv = {r: i for i, r in enumerate(obj.emap)}
+    keep = [i for i, (k, a, b) in enumerate(real) if a in inv and b in inv]
+    if not keep:
+        return None, []
+    return ifc.take(numpy.array(keep, dtype=int)), [(real[i][0], inv[real[i][1]], inv[real[i][2]]) for i in keep]
 
 
 def check_interfaces(pred, obj, fam, pmax, keys=None):
@@ -332,8 +374,9 @@ def check_alternative(label, alt, obj, tab, fam, pmax):
         other = alt()
     except Exception as e:
         raise Fail('{}:{}:raises-{}'.format(fam, label, type(e).__name__), 'constructing the basis via {} raised {!r}'.format(label, e))
-    if isinstance(other, tuple):   # a basis on another topology with the same elements in the same order
-        otopo, other = other
+    ogeom = None
+    if isinstance(other, tuple):   # a basis on another topology covering the same points
+        otopo, other, ogeom = other
     else:
         otopo = obj.topo
     if len(other) != tab['nd']:
@@ -343,8 +386,15 @@ def check_alternative(label, alt, obj, tab, fam, pmax):
         if [sorted(d) for d in t2['ed']] != [sorted(d) for d in tab['ed']] or t2['su'] != tab['su']:
             raise Fail('{}:{}:tables'.format(fam, label), 'the basis via {} has other dof tables'.format(label), dict(code=tab, other=t2))
     deg = gauss_degree(obj, pmax)
-    v1 = numpy.asarray(obj.topo.sample('gauss', deg).eval(obj.basis))
-    v2 = numpy.asarray(otopo.sample('gauss', deg).eval(other))
+    try:
+        v1, x1 = obj.topo.sample('gauss', deg).eval([obj.basis, obj.geom])
+        v2, x2 = otopo.sample('gauss', deg).eval([other, obj.geom if ogeom is None else ogeom])
+    except Exception as e:
+        raise Fail('{}:{}:eval:raises-{}'.format(fam, label, type(e).__name__), 'evaluating the basis via {} raised {!r}'.format(label, e))
+    v1, v2, x1, x2 = (numpy.asarray(a) for a in (v1, v2, x1, x2))
+    if ogeom is not None:   # the other sample orders its points differently: match them by position
+        v1 = v1[numpy.lexsort(numpy.round(x1, 9).T[::-1])]
+        v2 = v2[numpy.lexsort(numpy.round(x2, 9).T[::-1])]
     if v1.shape != v2.shape or abs(v1 - v2).max(initial=0) > TOL:
         raise Fail('{}:{}:values'.format(fam, label), 'the basis via {} evaluates differently'.format(label))
 
@@ -352,36 +402,59 @@ def check_alternative(label, alt, obj, tab, fam, pmax):
 def compare(pred, obj, alts, fam, pmax, exact=None):
     """all checks of one state; returns (code tables, number of point evaluations)"""
     tab = code_tables(obj, fam)
+    soft = []
+    try:
+        check_vector_args(obj, tab)
+    except Fail as f:       # reported, but the remaining clauses are still decided for this state
+        soft.append(f)
     compare_tables(pred, tab, obj.exact if exact is None else exact, fam)
     n = check_values(pred, tab, obj, fam, pmax)
     n += check_interfaces(pred, obj, fam, pmax)
     for label, alt in alts:
         check_alternative(label, alt, obj, tab, fam, pmax)
-    return tab, n
+    return tab, n, soft
 
 
 def run_structured(hist, preds, done, variant=0):
     """replay one behaviour of BasisMachine; preds[k-1] = model structure after hist[:k] (or None);
-    -> (failure or None, number of states compared, tables of the compared states)"""
+    -> (failures [(key, what, data)], number of states compared, tables of the compared states)"""
     pmax = max([h['a'][0] for h in hist if h['op'] == 'dim'] + [1])
     tables = []
+    fails = []
     ok = 0
-    fam = 'struct'
+    parent = None
     try:
         for k, obj, alts in guarded(follow_structured(hist, variant), hist):
             key = hkey(hist[:k])
             pred = preds[k - 1]
-            if pred is None or key in done:
-                continue
             op = hist[k - 1]['op']
             fam = {'dim': 'spline', 'ravel': 'spline', 'rem': 'removedofs'}.get(op, op)
-            tab, n = compare(pred, obj, alts, fam, pmax)
-            done.add(key)
-            tables.append(dict(tab, key=key))
-            ok += 1
+            if pred is not None and key not in done:
+                try:
+                    tab, n, soft = compare(pred, obj, alts, fam, pmax)
+                except Fail as f:
+                    raise diagnose(f, op, hist[k - 1], parent)
+                fails += [(f.key, f.what, dict(hist=hist[:k], detail=f.data)) for f in soft]
+                done.add(key)
+                tables.append(dict(tab, key=key))
+                ok += 1
+            parent = obj
     except Fail as f:
-        return (f.key, f.what, dict(hist=hist, detail=f.data)), ok, tables
-    return None, ok, tables
+        fails.append((f.key, f.what, dict(hist=hist, detail=f.data)))
+    return fails, ok, tables
+
+
+def diagnose(f, op, h, parent):
+    """give a table mismatch after Prune its root cause key when it is the known single-element defect"""
+    if op == 'prune' and len(h['a']) == 1 and parent is not None and f.key.startswith('prune:'):
+        try:
+            raw = [int(d) for d in parent.basis.get_dofs(numpy.array(h['a'], dtype=int))]
+        except Exception:
+            return f
+        if raw != sorted(set(raw)) and len(raw) != len(set(raw)):
+            return Fail('prune:one-element:parent-dofs-repeat', 'PrunedBasis of the single element {} whose parent dof list {} repeats a dof (get_dofs(array) is not unique there): {}'.format(
+                h['a'][0], raw, f.what), f.data)
+    return f
 
 
 def guarded(gen, hist):
